@@ -77,12 +77,21 @@ def _geoms(tier):
     # BAT entries beyond index 65536 (a 64 GiB disk of 1 MiB blocks)
     q.append(dict(bs=MB, sec=512, W=3, cut=512 * 7, at=65534, total=65538, seqs=[7, 6], regions=["meta", "bat"], meta_mb=2, bat_mb=3,
                   alpha="small"))
+    # a BAT that fills its region to the last byte: 131041 payload entries + 31 interleaved bitmap entries = 131072 entries = 1 MiB
+    # (and 2 MiB: 262080 + 63 for 1 MiB blocks with 4096-byte sectors ... ratio 2^23 * 4096 / 1 MiB = 32768: 262137 + 7)
+    q.append(dict(bs=MB, sec=512, W=3, cut=512 * 3, at=131038, total=131041, seqs=[7, 6], regions=["meta", "bat"], meta_mb=2, bat_mb=3,
+                  alpha="small"))
+    q.append(dict(bs=MB, sec=4096, W=3, cut=0, at=262134, total=262137, seqs=[7, 6], regions=["meta", "bat"], meta_mb=2, bat_mb=3,
+                  alpha="small"))
     # payload starting directly behind the 1 MiB header section, metadata region and BAT behind the payload
     q.append(dict(bs=MB, sec=512, W=3, cut=512, at=0, total=None, seqs=[7, 6], regions=["meta", "bat"], meta_mb=8, bat_mb=9,
                   base_mb=1, alpha="small"))
     # one request over more than 128 MiB of a single absent 256 MiB block
     q.append(dict(bs=256 * MB, sec=512, W=3, cut=0, at=0, total=None, seqs=[7, 6], regions=["meta", "bat"], meta_mb=2, bat_mb=3,
                   alpha="small", longrun=True))
+    # single requests of 66 .. 128 MiB out of present 128 MiB blocks that are not stored in guest order
+    q.append(dict(bs=128 * MB, sec=512, W=3, cut=0, at=0, total=None, seqs=[7, 6], regions=["meta", "bat"], meta_mb=2, bat_mb=3,
+                  alpha="small", longrun=True, longdata=True))
     if tier == "quick":
         return q
     t = []
@@ -136,6 +145,9 @@ def _requests(g, size, buf):
     bs, sec, at, W = g["bs"], g["sec"], g["at"], g["W"]
     lo = max(0, (at - 1) * bs)
     hi = min(size, (at + W) * bs)
+    if g.get("longdata"):
+        return ([(MB, 128 * MB), (bs - 4096, 66 * MB), (4096, 70 * MB), (bs + 512, 100 * MB + 512)],
+                [(2048, (128 * MB) // sec), ((bs - MB) // sec, (65 * MB) // sec + 3)])
     if g.get("longrun"):
         return ([(0, 2 * bs + 4096), (bs - (200 << 20), 201 << 20), (4096, 130 << 20), (bs - 512, 1024), (bs + 512, bs + 1024)],
                 [(0, (2 * bs + 8192) // sec), (8, (140 << 20) // sec)])
@@ -165,6 +177,11 @@ def run_shard(shard, ctx):
     i, k = shard["slice"]
     W = g["W"]
     alpha = ALPHA_SMALL if g.get("alpha") == "small" else ALPHA
+    if g.get("longdata"):
+        for n, slots in enumerate(([0, 2, 1], [1, 0, 2], [2, 1, 0], [2, 0, 1])):
+            if n % k == i:
+                run_case({"geom": g, "states": [DATA, DATA, DATA], "slots": slots}, ctx)
+        return
     if g.get("longrun"):
         # two absent 256 MiB blocks in every combination of {not present, zero}, then one present block
         import itertools
